@@ -919,6 +919,16 @@ class RTCSctpTransport(AsyncIOEventEmitter):
 
         return True
 
+    def _sack_misordered_sorted(self) -> list[int]:
+        """
+        Return the misordered TSNs in serial number order, i.e. by their
+        distance from the cumulative TSN, so that wraparound is handled.
+        """
+        base = self._last_received_tsn
+        return sorted(
+            self._sack_misordered, key=lambda tsn: (tsn - base) % SCTP_TSN_MODULO
+        )
+
     def _mark_received(self, tsn: int) -> bool:
         """
         Mark an incoming data TSN as received.
@@ -930,7 +940,7 @@ class RTCSctpTransport(AsyncIOEventEmitter):
 
         # consolidate misordered entries
         self._sack_misordered.add(tsn)
-        for tsn in sorted(self._sack_misordered):
+        for tsn in self._sack_misordered_sorted():
             if tsn == tsn_plus_one(self._last_received_tsn):
                 self._last_received_tsn = tsn
             else:
@@ -1136,7 +1146,7 @@ class RTCSctpTransport(AsyncIOEventEmitter):
         # advance cumulative TSN
         self._last_received_tsn = chunk.cumulative_tsn
         self._sack_misordered = set(filter(is_obsolete, self._sack_misordered))
-        for tsn in sorted(self._sack_misordered):
+        for tsn in self._sack_misordered_sorted():
             if tsn == tsn_plus_one(self._last_received_tsn):
                 self._last_received_tsn = tsn
             else:
@@ -1402,7 +1412,7 @@ class RTCSctpTransport(AsyncIOEventEmitter):
         """
         gaps: list[list[int]] = []
         gap_next = None
-        for tsn in sorted(self._sack_misordered):
+        for tsn in self._sack_misordered_sorted():
             pos = (tsn - self._last_received_tsn) % SCTP_TSN_MODULO
             if tsn == gap_next:
                 gaps[-1][1] = pos
